@@ -183,7 +183,7 @@ fn main() {
     );
 
     // n-D: shapes x layouts x fills x NaN position
-    let shapes: Vec<Vec<usize>> = vec![vec![], vec![0], vec![1], vec![0, 3], vec![3, 0], vec![2, 0, 2], vec![2, 3], vec![3, 2], vec![1, 4], vec![3, 2, 2], vec![2, 2, 3], vec![2, 2, 2, 2], vec![2, 1, 3, 2]];
+    let shapes: Vec<Vec<usize>> = vec![vec![], vec![0], vec![1], vec![0, 3], vec![3, 0], vec![2, 0, 2], vec![2, 3], vec![3, 2], vec![1, 4], vec![3, 1], vec![4, 1], vec![3, 2, 2], vec![2, 2, 3], vec![2, 2, 1], vec![3, 2, 4], vec![2, 2, 2, 2], vec![2, 1, 3, 2], vec![2, 3, 2, 1]];
     let thorough = rep.cfg.thorough();
     let mut cases: Vec<CaseN> = Vec::new();
     for shape in &shapes {
@@ -235,6 +235,55 @@ fn main() {
             lx.single(|lx| {
                 let h = Host::new(&c.shape, &data, &c.layout, 777.0);
                 check_dyn_and_static(h.view(), "f64 nd", lx)
+            });
+        },
+    );
+    // the strict extremum at every logical position in turn (3-D / 4-D index arithmetic), and long 1-D arrays
+    let mut ecases: Vec<(Vec<usize>, usize, usize, bool)> = Vec::new();
+    for shape in [vec![3usize, 2, 4], vec![2, 3, 2], vec![4, 3], vec![2, 2, 2, 3], vec![5, 1, 2]] {
+        let n: usize = shape.iter().product();
+        let nl = all_layouts(shape.len(), &[1, -1]).len();
+        for pos in 0..n {
+            for li in 0..nl {
+                ecases.push((shape.clone(), pos, li, (pos + li) % 2 == 0));
+            }
+        }
+    }
+    rep.run_sub(
+        "extremum-at-every-position",
+        "shapes (3,2,4), (2,3,2), (4,3), (2,2,2,3), (5,1,2) x the strict minimum (resp. maximum) placed at every logical position in turn x all contiguous / reversed / permuted layouts (steps +-1, with and without offset), IxN and IxDyn",
+        ecases.into_iter(),
+        |c, lx| {
+            let (shape, pos, li, is_min) = c;
+            lx.nontrivial(true);
+            let n: usize = shape.iter().product();
+            let data: Vec<f64> = (0..n).map(|i| if i == *pos { if *is_min { -50.0 } else { 50.0 } } else { ((i * 7) % 5) as f64 }).collect();
+            let l = all_layouts(shape.len(), &[1, -1])[*li].clone();
+            lx.single(|lx| {
+                let h = Host::new(shape, &data, &l, 777.0);
+                check_dyn_and_static(h.view(), "extremum sweep", lx)
+            });
+        },
+    );
+    let smax = rep.cfg.pick(1100, 4100);
+    let lcases = nsmc::patterns::sizes(16, smax).into_iter().filter(|&n| n >= 2).flat_map(|n| {
+        let mut pos: Vec<usize> = vec![0, 1, n / 2, n - 2, n - 1];
+        pos.extend([15usize, 16, 17, 31, 32, 33, 63, 64, 65, 127, 128, 129, 255, 256, 257].iter().cloned().filter(|&p| p < n));
+        pos.sort();
+        pos.dedup();
+        pos.into_iter().flat_map(move |p| (0..3u8).map(move |kind| (n, p, kind)))
+    });
+    rep.run_sub(
+        "long-arrays",
+        &format!("every length 2..=16 and block threshold neighbourhoods up to {} x {{strict minimum, strict maximum, NaN}} placed at the ends, the middle and around every multiple of 16/32/64/128/256 x strides {{1,-1,2}}", smax),
+        lcases,
+        |c, lx| {
+            let (n, p, kind) = *c;
+            lx.nontrivial(true);
+            let data: Vec<f64> = (0..n).map(|i| if i == p { [-1e9, 1e9, f64::NAN][kind as usize] } else { ((i * 13) % 101) as f64 }).collect();
+            lx.single(|lx| {
+                let h = Host1::new(&data, [1isize, -1, 2][(n + p) % 3], 1, 777.0);
+                check_dyn_and_static(h.view().into_dyn(), "long array", lx)
             });
         },
     );
